@@ -6,7 +6,13 @@ import (
 	"bytes"
 	"fmt"
 	"io"
+	"os"
+	"os/exec"
+	"reflect"
+	"strconv"
 	"strings"
+	"sync"
+	"sync/atomic"
 	"time"
 
 	"mvdan.cc/sh/v3/syntax"
@@ -15,8 +21,18 @@ import (
 
 // C06 — Parsing and printing never crash or hang.
 // Search leg: every entry point × variant × option set under recover() with a time budget, then
-// Print / Simplify / Walk / typedjson.Encode on whatever tree came back.
-func init() { register("C06", c06) }
+// Pos/End of every node, Walk, typedjson.Encode, Print (several option sets), Simplify on whatever
+// tree came back; a linearity probe on inputs grown to 256 KiB / 1 MiB; a deep-nesting probe in a
+// subprocess (a Go stack overflow is fatal and cannot be recovered).
+// Tie: the tree well-formedness predicate of Model/C06.lean (`wf` ops) against the real Pos()/End()
+// methods, on parser-produced nodes and on nodes made ill-formed on purpose.
+func init() {
+	if spec := os.Getenv("VERIF_C06_DEEP"); spec != "" {
+		c06DeepChild(spec)
+		os.Exit(0)
+	}
+	register("C06", c06)
+}
 
 type c06Opts struct {
 	lang    syntax.LangVariant
@@ -46,22 +62,127 @@ var c06PrintOpts = [][]syntax.PrinterOption{
 	{syntax.Minify(true)},
 	{syntax.SingleLine(true), syntax.SpaceRedirects(true), syntax.FunctionNextLine(true)},
 	{syntax.KeepPadding(true)},
+	{syntax.Indent(8), syntax.SpaceRedirects(true), syntax.KeepPadding(true), syntax.BinaryNextLine(true)},
+	{syntax.Minify(true), syntax.SingleLine(true)},
+	{syntax.FunctionNextLine(true), syntax.SwitchCaseIndent(true), syntax.Indent(1)},
 }
 
-// c06Post runs the tree consumers; returns a description of the first panic.
-func c06Post(n syntax.Node, r *Rand) string {
-	if n == nil {
+type c06Op struct{ op, impl string }
+
+var c06SlotsMu sync.Mutex
+
+// c06ListLens renders the lengths of the node's own list-of-node fields: "Parts=2 …".
+func c06ListLens(n syntax.Node) (ty string, lens []string, slots []slotInfo) {
+	v := reflect.ValueOf(n)
+	if v.Kind() == reflect.Pointer {
+		v = v.Elem()
+	}
+	ty = v.Type().Name()
+	c06SlotsMu.Lock() // slotsOfType fills an unsynchronised cache; workers call this concurrently
+	all := slotsOfType(v.Type())
+	c06SlotsMu.Unlock()
+	for _, s := range all {
+		if !s.IsList || len(s.index) != 1 {
+			continue
+		}
+		lens = append(lens, fmt.Sprintf("%s=%d", s.Path, v.Field(s.index[0]).Len()))
+		slots = append(slots, s)
+	}
+	return
+}
+
+func c06PosEnd(n syntax.Node) string {
+	return safely(func() {
+		_ = n.Pos()
+		_ = n.End()
+	})
+}
+
+// c06Mutant copies the node and empties the list fields selected by mask.
+func c06Mutant(n syntax.Node, slots []slotInfo, mask int) (syntax.Node, []string) {
+	v := reflect.ValueOf(n).Elem()
+	cp := reflect.New(v.Type())
+	cp.Elem().Set(v)
+	var lens []string
+	for i, s := range slots {
+		f := cp.Elem().Field(s.index[0])
+		if mask&(1<<i) != 0 {
+			f.Set(reflect.Zero(f.Type()))
+		}
+		lens = append(lens, fmt.Sprintf("%s=%d", s.Path, f.Len()))
+	}
+	return cp.Interface().(syntax.Node), lens
+}
+
+// c06Post runs the tree consumers; returns a description of the first panic.  ops receives
+// a few `wf` tie lines sampled from the tree.
+func c06Post(n syntax.Node, r *Rand, ops *[]c06Op) string {
+	if n == nil || reflect.ValueOf(n).IsNil() {
 		return ""
 	}
-	if p := safely(func() { syntax.Walk(n, func(syntax.Node) bool { return true }) }); p != "" {
+	var nodes []syntax.Node
+	if p := safely(func() {
+		syntax.Walk(n, func(x syntax.Node) bool {
+			if x != nil {
+				nodes = append(nodes, x)
+			}
+			return true
+		})
+	}); p != "" {
 		return "Walk: " + p
 	}
-	if p := safely(func() { typedjson.Encode(io.Discard, n) }); p != "" {
-		return "typedjson.Encode: " + p
+	// Pos()/End() of every node; on very large trees (a left-deep pipeline makes Pos() itself linear,
+	// typedjson costs ~a millisecond per node) a sample of the nodes and sub-trees instead
+	big := len(nodes) > 2000
+	for i, x := range nodes {
+		if big && i > 200 && !r.Chance(5) {
+			continue
+		}
+		if _, isComment := x.(*syntax.Comment); isComment {
+			continue // Walk hands out the address of a loop copy
+		}
+		if p := c06PosEnd(x); p != "" {
+			ty, lens, _ := c06ListLens(x)
+			return fmt.Sprintf("Pos/End of %s{%s}: %s", ty, strings.Join(lens, " "), p)
+		}
 	}
-	po := c06PrintOpts[r.Intn(len(c06PrintOpts))]
-	if p := safely(func() { syntax.NewPrinter(po...).Print(io.Discard, n) }); p != "" {
-		return "Print: " + p
+	// tie: the WF predicate against the real Pos()/End(), on real and on mutilated nodes
+	if ops != nil && len(nodes) > 0 {
+		for k := 0; k < 3 && len(*ops) < 24; k++ {
+			x := nodes[r.Intn(len(nodes))]
+			if _, isComment := x.(*syntax.Comment); isComment {
+				continue
+			}
+			ty, lens, slots := c06ListLens(x)
+			if len(slots) == 0 {
+				continue
+			}
+			*ops = append(*ops, c06Op{strings.TrimSpace("wf " + ty + " " + strings.Join(lens, " ")), "true"})
+			m, mlens := c06Mutant(x, slots, 1+r.Intn(1<<len(slots)-1))
+			*ops = append(*ops, c06Op{strings.TrimSpace("wf " + ty + " " + strings.Join(mlens, " ")), fmt.Sprint(c06PosEnd(m) == "")})
+		}
+	}
+	encodeRoots := []syntax.Node{n}
+	if big {
+		encodeRoots = encodeRoots[:0]
+		for k := 0; k < 40; k++ {
+			if x := nodes[len(nodes)-1-r.Intn(len(nodes)/2)]; x != nil {
+				if _, isComment := x.(*syntax.Comment); !isComment {
+					encodeRoots = append(encodeRoots, x)
+				}
+			}
+		}
+	}
+	for _, x := range encodeRoots {
+		if p := safely(func() { typedjson.Encode(io.Discard, x) }); p != "" {
+			return "typedjson.Encode: " + p
+		}
+	}
+	for k := 0; k < 2; k++ {
+		pi := r.Intn(len(c06PrintOpts))
+		if p := safely(func() { syntax.NewPrinter(c06PrintOpts[pi]...).Print(io.Discard, n) }); p != "" {
+			return fmt.Sprintf("Print(option set %d): %s", pi, p)
+		}
 	}
 	if p := safely(func() { syntax.Simplify(n) }); p != "" {
 		return "Simplify: " + p
@@ -69,27 +190,35 @@ func c06Post(n syntax.Node, r *Rand) string {
 	if p := safely(func() { syntax.NewPrinter().Print(io.Discard, n) }); p != "" {
 		return "Print after Simplify: " + p
 	}
+	if p := safely(func() { syntax.Walk(n, func(x syntax.Node) bool { return x == nil || r.Chance(80) }) }); p != "" {
+		return "Walk (pruning) after Simplify: " + p
+	}
 	return ""
 }
 
 // c06One runs one entry point; returns "" or a failure description.
-func c06One(entry int, o c06Opts, src string, r *Rand) string {
-	var msg string
+func c06One(entry int, o c06Opts, src string, r *Rand, ops *[]c06Op) (msg string, gotTree bool) {
 	p := safely(func() {
 		ps := o.parser()
 		rd := strings.NewReader(src)
 		switch entry {
 		case 0:
+			// Parse hands back the partial tree together with an error: it is a tree it returned
 			f, err := ps.Parse(rd, "")
-			if f != nil && err == nil {
-				msg = c06Post(f, r)
+			if f != nil {
+				gotTree = err == nil && len(f.Stmts) > 0
+				msg = c06Post(f, r, ops)
+				if msg != "" && err != nil {
+					msg += " [on the partial tree returned with the error: " + err.Error() + "]"
+				}
 			}
 		case 1:
 			for s, err := range ps.StmtsSeq(rd) {
 				if err != nil {
 					break
 				}
-				if m := c06Post(s, r); m != "" {
+				gotTree = true
+				if m := c06Post(s, r, ops); m != "" {
 					msg = m
 					break
 				}
@@ -99,7 +228,8 @@ func c06One(entry int, o c06Opts, src string, r *Rand) string {
 				if err != nil {
 					break
 				}
-				if m := c06Post(w, r); m != "" {
+				gotTree = true
+				if m := c06Post(w, r, ops); m != "" {
 					msg = m
 					break
 				}
@@ -110,7 +240,8 @@ func c06One(entry int, o c06Opts, src string, r *Rand) string {
 					break
 				}
 				for _, s := range stmts {
-					if m := c06Post(s, r); m != "" {
+					gotTree = true
+					if m := c06Post(s, r, ops); m != "" {
 						msg = m
 					}
 				}
@@ -118,22 +249,29 @@ func c06One(entry int, o c06Opts, src string, r *Rand) string {
 		case 4:
 			w, err := ps.Document(rd)
 			if w != nil && err == nil {
-				msg = c06Post(w, r)
+				gotTree = true
+				msg = c06Post(w, r, ops)
 			}
 		case 5:
 			e, err := ps.Arithmetic(rd)
 			if e != nil && err == nil {
-				msg = c06Post(e, r)
+				gotTree = true
+				msg = c06Post(e, r, ops)
 			}
 		}
 	})
 	if p != "" {
-		return "panic: " + p
+		return "panic: " + p, gotTree
 	}
-	return msg
+	return msg, gotTree
 }
 
 var c06Entries = []string{"Parse", "StmtsSeq", "WordsSeq", "InteractiveSeq", "Document", "Arithmetic"}
+
+const c06Meta = "'\"`$(){}[]<>|&;\\\n#!*?~= \t\x00\r"
+
+var c06Toks = []string{"$(", "${", "$((", "((", "[[", "<<EOF\n", "<<-'E'\n", "`", "\"", "'", "case x in", "esac", "fi", "done", "}", ")", "))", "]]", "\\\n", "$'", "@(", "<(", "{a,b}", "&&", "|&", ";;&", "function ", "select ", "coproc ", "time ", "! ", "a=(", "${a[", "${a:", "${a/", "#",
+	"$[", "$\"", ">(", "=(", "<->", "${(f)", "${=", "${a@", "${!", "${#", "for ((", "; do", "then", "elif", "else", "in", "@test ", "declare ", "let ", "[ ", " ]", "<<<", ">&", "&>", "2>", ">|", "&!", "&|", ";&", ";|", "\xff", "\xc3", "é", "\r\n", "\\\r\n", "$$", "EOF"}
 
 func c06Mutate(r *Rand, s string, seeds []string) string {
 	b := []byte(s)
@@ -143,29 +281,32 @@ func c06Mutate(r *Rand, s string, seeds []string) string {
 			continue
 		}
 		i := r.Intn(len(b))
-		switch r.Intn(7) {
-		case 0:
+		switch r.Intn(9) {
+		case 0: // delete a byte
 			b = append(b[:i], b[i+1:]...)
-		case 1:
+		case 1: // insert a random byte
 			b = append(b[:i], append([]byte{byte(r.Intn(256))}, b[i:]...)...)
-		case 2:
-			meta := "'\"`$(){}[]<>|&;\\\n#!*?~= \t\x00\r"
-			b[i] = meta[r.Intn(len(meta))]
-		case 3:
+		case 2: // overwrite with a metacharacter
+			b[i] = c06Meta[r.Intn(len(c06Meta))]
+		case 3: // swap two bytes
 			j := r.Intn(len(b))
 			b[i], b[j] = b[j], b[i]
-		case 4:
+		case 4: // duplicate a range
 			j := i + r.Intn(len(b)-i)
 			b = append(b[:j], append(append([]byte{}, b[i:j]...), b[j:]...)...)
-		case 5:
+		case 5: // splice: the tail of another seed
 			o := seeds[r.Intn(len(seeds))]
 			if len(o) > 0 {
 				j := r.Intn(len(o))
 				b = append(b[:i], []byte(o[j:])...)
 			}
-		case 6:
-			toks := []string{"$(", "${", "$((", "((", "[[", "<<EOF\n", "<<-'E'\n", "`", "\"", "'", "case x in", "esac", "fi", "done", "}", ")", "))", "]]", "\\\n", "$'", "@(", "<(", "{a,b}", "&&", "|&", ";;&", "function ", "select ", "coproc ", "time ", "! ", "a=(", "${a[", "${a:", "${a/", "#"}
-			b = append(b[:i], append([]byte(toks[r.Intn(len(toks))]), b[i:]...)...)
+		case 6: // insert a token
+			b = append(b[:i], append([]byte(c06Toks[r.Intn(len(c06Toks))]), b[i:]...)...)
+		case 7: // delete a range
+			j := i + r.Intn(len(b)-i)
+			b = append(b[:i], b[j:]...)
+		case 8: // truncate
+			b = b[:i]
 		}
 		if len(b) > 4096 {
 			b = b[:4096]
@@ -174,20 +315,203 @@ func c06Mutate(r *Rand, s string, seeds []string) string {
 	return string(b)
 }
 
+// c06TokenMutate works on whitespace-separated tokens: delete, duplicate, swap, replace.
+func c06TokenMutate(r *Rand, s string) string {
+	toks := strings.FieldsFunc(s, func(c rune) bool { return c == ' ' })
+	if len(toks) < 2 {
+		return s + c06Toks[r.Intn(len(c06Toks))]
+	}
+	for k, n := 0, 1+r.Intn(2); k < n && len(toks) > 1; k++ {
+		i, j := r.Intn(len(toks)), r.Intn(len(toks))
+		switch r.Intn(4) {
+		case 0:
+			toks = append(toks[:i], toks[i+1:]...)
+		case 1:
+			toks = append(toks[:i], append([]string{toks[j]}, toks[i:]...)...)
+		case 2:
+			toks[i], toks[j] = toks[j], toks[i]
+		case 3:
+			toks[i] = c06Toks[r.Intn(len(c06Toks))]
+		}
+	}
+	return strings.Join(toks, " ")
+}
+
+var c06DeepUnits = []string{"(", "$(", "{ ", "((", "`", "${a:-", "$((", "[[ ( ", "if ", "case x in a) ", "a=(", "\"$(", "<<E\n", "! ", "a|", "$[", "<(", "${a[", "f() ", "while ", "a && ", "{ (", "\"${a:-\"", "$(($(", "for i in $(", "@(", "${a/", "function f { ", "time ", "coproc "}
+
+// c06Deep: nesting depth up to a few hundred (deeper nesting is the subprocess probe's business).
+func c06Deep(r *Rand) string {
+	u := c06DeepUnits[r.Intn(len(c06DeepUnits))]
+	n := 1 + r.Intn(300)
+	s := strings.Repeat(u, n)
+	if r.Bool() {
+		s += "x"
+		closers := map[string]string{"(": ")", "$(": ")", "{ ": "; }", "((": "))", "${a:-": "}", "$((": "))", "\"$(": ")\"", "$[": "]", "<(": ")", "${a[": "]}", "{ (": "); }", "@(": ")", "${a/": "}"}
+		if c, ok := closers[u]; ok {
+			s += strings.Repeat(c, n-r.Intn(2))
+		}
+	}
+	return s
+}
+
+func c06LongLine(r *Rand) string {
+	n := 2000 + r.Intn(30000)
+	switch r.Intn(7) {
+	case 0:
+		return strings.Repeat("a", n)
+	case 1:
+		return "echo " + strings.Repeat("a b ", n/4)
+	case 2:
+		return strings.Repeat("a | ", n/4) + "a"
+	case 3:
+		return "echo \"" + strings.Repeat("$a ", n/3) + "\""
+	case 4:
+		return "# " + strings.Repeat("c", n)
+	case 5:
+		return strings.Repeat("a=b ", n/4) + "cmd"
+	default:
+		return "echo " + strings.Repeat("\\\n", n/2) + "x"
+	}
+}
+
+func c06Minimize(src string, stillFails func(string) bool) string {
+	evals := 0
+	for chunk := len(src) / 2; chunk >= 1; chunk /= 2 {
+		for i := 0; i+chunk <= len(src) && evals < 400; {
+			cand := src[:i] + src[i+chunk:]
+			evals++
+			if stillFails(cand) {
+				src = cand
+			} else {
+				i += chunk
+			}
+		}
+	}
+	return src
+}
+
+// ---- deep-nesting probe (subprocess: a Go stack overflow is a fatal error, not a panic) ----
+
+// c06DeepChild parses strings.Repeat(unit, n) and reports; run by the re-executed harness binary.
+func c06DeepChild(spec string) {
+	i := strings.LastIndex(spec, ":")
+	n, _ := strconv.Atoi(spec[i+1:])
+	unit := unhx(spec[:i])
+	src := strings.Repeat(unit, n)
+	f, err := syntax.NewParser().Parse(strings.NewReader(src), "")
+	if err == nil && f != nil {
+		syntax.NewPrinter().Print(io.Discard, f)
+	}
+	fmt.Println("C06-DEEP-RETURNED")
+}
+
+type c06DeepResult struct {
+	unit   string
+	n      int
+	status string // returned | stack-overflow | timeout | other
+	detail string
+	d      time.Duration
+}
+
+func c06DeepProbe(unit string, n int, budget time.Duration) c06DeepResult {
+	res := c06DeepResult{unit: unit, n: n}
+	exe, err := os.Executable()
+	if err != nil {
+		res.status, res.detail = "other", err.Error()
+		return res
+	}
+	cmd := exec.Command(exe)
+	cmd.Env = append(os.Environ(), "VERIF_C06_DEEP="+hx(unit)+":"+strconv.Itoa(n), "GOMAXPROCS=2")
+	var out bytes.Buffer
+	cmd.Stdout, cmd.Stderr = &out, &out
+	t0 := time.Now()
+	if err := cmd.Start(); err != nil {
+		res.status, res.detail = "other", err.Error()
+		return res
+	}
+	done := make(chan error, 1)
+	go func() { done <- cmd.Wait() }()
+	select {
+	case <-done:
+	case <-time.After(budget):
+		cmd.Process.Kill()
+		<-done
+		res.status = "timeout"
+		res.d = time.Since(t0)
+		return res
+	}
+	res.d = time.Since(t0)
+	o := out.String()
+	switch {
+	case strings.Contains(o, "C06-DEEP-RETURNED"):
+		res.status = "returned"
+	case strings.Contains(o, "stack overflow") || strings.Contains(o, "goroutine stack exceeds"):
+		res.status = "stack-overflow"
+		if i := strings.Index(o, "fatal error"); i >= 0 {
+			res.detail = strings.SplitN(o[i:], "\n", 2)[0]
+		}
+	default:
+		res.status = "other"
+		if len(o) > 300 {
+			o = o[:300]
+		}
+		res.detail = o
+	}
+	return res
+}
+
 func c06(c *Ctx) {
-	c.Rule = "inputs: random bytes, the repository's test inputs, grammar-generated programs, byte/token mutations and splices of those, deep nesting; each run through all six entry points × a sampled (variant, KeepComments, StopAt, RecoverErrors) option set under recover() with a time budget, then Walk/typedjson.Encode/Print(option set)/Simplify on every returned tree; " +
+	c.Rule = "inputs: random bytes, metacharacter soup, the repository's test inputs, grammar-generated programs, byte/token mutations and splices of those, nesting up to depth 300, long lines; each run through all six entry points × a sampled (variant, KeepComments, StopAt, RecoverErrors) option set under recover() with a time budget, then Pos/End of every node, Walk, typedjson.Encode, Print (2 sampled option sets + default), Simplify on every returned tree; " +
 		"non-trivial = at least one entry point returned a tree; distinct by (input, options)"
 	seeds := repoSeeds()
+	thorough := c.Thorough()
+
+	// the deep-nesting probe runs beside the fuzz loop (shard 0 only)
+	deepCh := make(chan []c06DeepResult, 1)
+	if c.Shard == 0 {
+		go func() {
+			budget := 150 * time.Second
+			probes := []struct {
+				unit string
+				n    int
+			}{{"(", 250000}}
+			if thorough {
+				budget = 600 * time.Second
+				probes = append(probes, struct {
+					unit string
+					n    int
+				}{"$(", 600000}, struct {
+					unit string
+					n    int
+				}{"{ ", 2000000}, struct {
+					unit string
+					n    int
+				}{"(", 20000}, struct {
+					unit string
+					n    int
+				}{"if ", 20000})
+			}
+			var out []c06DeepResult
+			for _, p := range probes {
+				out = append(out, c06DeepProbe(p.unit, p.n, budget))
+			}
+			deepCh <- out
+		}()
+	} else {
+		deepCh <- nil
+	}
+
 	type job struct {
-		src string
-		o   c06Opts
-		r   *Rand
+		src  string
+		kind string
+		o    c06Opts
+		r    *Rand
 	}
 	var jobs []job
 	mkOpts := func(r *Rand) c06Opts {
 		o := c06Opts{lang: allLangs[r.Intn(len(allLangs))], keep: r.Bool()}
 		if r.Chance(25) {
-			o.stopAt = r.Pick([]string{"$$", "EOF", "}", "fi", "a"})
+			o.stopAt = r.Pick([]string{"$$", "EOF", "}", "fi", "a", "#", "\\", "é", "))"}) // StopAt panics by contract on words with whitespace
 		}
 		if r.Chance(40) {
 			o.recover = 1 + r.Intn(5)
@@ -198,129 +522,282 @@ func c06(c *Ctx) {
 		f := strings.Fields(l)
 		for _, lang := range allLangs {
 			for _, rec := range []int{0, 1, 4} {
-				jobs = append(jobs, job{unhx(f[len(f)-1]), c06Opts{lang: lang, keep: rec == 1, recover: rec}, c.R.Fork(l)})
+				jobs = append(jobs, job{unhx(f[len(f)-1]), "corpus", c06Opts{lang: lang, keep: rec == 1, recover: rec}, c.R.Fork(l)})
 			}
 		}
 	}
-	deep := []string{strings.Repeat("(", 300), strings.Repeat("$(", 200), strings.Repeat("{ ", 300), strings.Repeat("((", 200), strings.Repeat("`", 151),
-		strings.Repeat("${a:-", 200), strings.Repeat("$((", 150), strings.Repeat("[[ ( ", 100), strings.Repeat("if ", 300), strings.Repeat("case x in a) ", 100),
-		strings.Repeat("a=(", 150), strings.Repeat("\"$(", 150), strings.Repeat("<<E\n", 100), strings.Repeat("! ", 500), strings.Repeat("a|", 500)}
-	for _, dsrc := range deep {
-		jobs = append(jobs, job{dsrc, mkOpts(c.R), c.R.Fork(dsrc)})
+	if c.Shard == 0 {
+		for _, u := range c06DeepUnits {
+			for _, n := range []int{100, 300, 1000} {
+				dsrc := strings.Repeat(u, n)
+				jobs = append(jobs, job{dsrc, "deep", mkOpts(c.R), c.R.Fork(dsrc)})
+			}
+		}
 	}
 	for i := 0; i < c.N; i++ {
 		r := c.R
-		var src string
-		switch k := r.Intn(10); {
-		case k < 2:
-			n := r.Intn(40)
-			b := make([]byte, n)
+		var src, kind string
+		switch k := r.Intn(100); {
+		case k < 8:
+			kind = "random-bytes"
+			b := make([]byte, r.Intn(64))
 			for j := range b {
 				b[j] = byte(r.Intn(256))
 			}
 			src = string(b)
-		case k < 4:
+		case k < 18:
+			kind = "meta-soup"
+			var sb strings.Builder
+			for j, n := 0, r.Intn(24); j < n; j++ {
+				if r.Chance(60) {
+					sb.WriteString(c06Toks[r.Intn(len(c06Toks))])
+				} else {
+					sb.WriteByte(c06Meta[r.Intn(len(c06Meta))])
+				}
+				if r.Chance(30) {
+					sb.WriteString(r.Pick([]string{" ", "a", "x=1", "\n", "1"}))
+				}
+			}
+			src = sb.String()
+		case k < 30:
+			kind = "repo-seed"
 			src = seeds[r.Intn(len(seeds))]
-		case k < 5:
+		case k < 38:
+			kind = "grammar"
 			src = newProgGen(r, r.Bool()).Program(1 + r.Intn(3))
-		case k < 9:
+		case k < 66:
+			kind = "seed-byte-mutation"
 			src = c06Mutate(r, seeds[r.Intn(len(seeds))], seeds)
-		default:
+		case k < 76:
+			kind = "seed-token-mutation"
+			src = c06TokenMutate(r, seeds[r.Intn(len(seeds))])
+		case k < 86:
+			kind = "grammar-mutation"
 			src = c06Mutate(r, newProgGen(r, true).Program(1+r.Intn(2)), seeds)
+		case k < 92:
+			kind = "splice"
+			a, b := seeds[r.Intn(len(seeds))], seeds[r.Intn(len(seeds))]
+			src = a[:r.Intn(len(a)+1)] + b[r.Intn(len(b)+1):]
+		case k < 98:
+			kind = "deep"
+			src = c06Deep(r)
+		default:
+			kind = "long-line"
+			src = c06LongLine(r)
 		}
-		jobs = append(jobs, job{src, mkOpts(r), r.Fork(fmt.Sprint(i))})
+		jobs = append(jobs, job{src, kind, mkOpts(r), r.Fork(fmt.Sprint(i))})
 	}
 	type res struct {
 		fails    []Failure
 		tree     bool
 		slow     time.Duration
 		suspects []int
+		ops      []c06Op
 	}
-	results := parallelMap(len(jobs), 12, func(i int) res {
+	workers := 4
+	if thorough {
+		workers = 2 // 16 shards run side by side
+	}
+	runOne := func(j job, e int, budget time.Duration, ops *[]c06Op) (msg string, tree, timedOut bool) {
+		type r2 struct {
+			msg  string
+			tree bool
+		}
+		done := make(chan r2, 1)
+		var localOps []c06Op
+		go func() {
+			m, t := c06One(e, j.o, j.src, j.r.Fork(c06Entries[e]), &localOps)
+			done <- r2{m, t}
+		}()
+		select {
+		case x := <-done:
+			if ops != nil {
+				*ops = append(*ops, localOps...)
+			}
+			return x.msg, x.tree, false
+		case <-time.After(budget):
+			return "", false, true
+		}
+	}
+	var opsLeft atomic.Int64 // tie lines are sampled: at most this many per shard
+	opsLeft.Store(60000)
+	results := parallelMap(len(jobs), workers, func(i int) res {
 		j := jobs[i]
 		var out res
 		for e := range c06Entries {
 			t0 := time.Now()
-			done := make(chan string, 1)
-			go func() { done <- c06One(e, j.o, j.src, j.r) }()
 			budget := 5*time.Second + 2*time.Duration(len(j.src))*time.Millisecond
-			select {
-			case msg := <-done:
-				if msg != "" {
-					out.fails = append(out.fails, Failure{Witness: fmt.Sprintf("%s %s %s", c06Entries[e], j.o, hx(j.src)), What: msg})
-				}
-			case <-time.After(budget):
+			var opsp *[]c06Op
+			if opsLeft.Load() > 0 {
+				opsp = &out.ops
+			}
+			before := len(out.ops)
+			msg, tree, to := runOne(j, e, budget, opsp)
+			opsLeft.Add(-int64(len(out.ops) - before))
+			if to {
 				// possibly only machine load: re-run alone after the parallel phase
 				out.suspects = append(out.suspects, e)
+			} else if msg != "" {
+				out.fails = append(out.fails, Failure{Witness: fmt.Sprintf("%s %s %s", c06Entries[e], j.o, hx(j.src)), What: msg})
 			}
+			out.tree = out.tree || tree
 			if d := time.Since(t0); d > out.slow {
 				out.slow = d
 			}
 		}
-		f, _, _ := parseIn(j.src, j.o.lang)
-		out.tree = f != nil && len(f.Stmts) > 0
 		return out
 	})
 	for i := range results {
 		j := jobs[i]
 		for _, e := range results[i].suspects {
 			c.Hist["retried-alone-after-timeout"]++
-			done := make(chan string, 1)
-			go func() { done <- c06One(e, j.o, j.src, j.r) }()
-			budget := 60 * time.Second
-			select {
-			case msg := <-done:
-				if msg != "" {
-					results[i].fails = append(results[i].fails, Failure{Witness: fmt.Sprintf("%s %s %s", c06Entries[e], j.o, hx(j.src)), What: msg})
+			budget := 120 * time.Second
+			msg, _, to := runOne(j, e, budget, nil)
+			w := fmt.Sprintf("%s %s %s", c06Entries[e], j.o, hx(j.src))
+			if to {
+				// even alone: still only a suspicion on a loaded machine; judged by CPU-free criterion
+				// "twice in a row", the second time with a doubled budget
+				if _, _, to2 := runOne(j, e, 2*budget, nil); to2 {
+					results[i].fails = append(results[i].fails, Failure{Witness: w, What: fmt.Sprintf("did not return within %v, run alone, twice (hang)", 2*budget)})
 				}
-			case <-time.After(budget):
-				results[i].fails = append(results[i].fails, Failure{Witness: fmt.Sprintf("%s %s %s", c06Entries[e], j.o, hx(j.src)), What: fmt.Sprintf("did not return within %v even when run alone (hang)", budget)})
+			} else if msg != "" {
+				results[i].fails = append(results[i].fails, Failure{Witness: w, What: msg})
 			}
 		}
 	}
 	var slowest time.Duration
+	slowKinds := map[string]time.Duration{}
 	for i, r := range results {
+		slowKinds[jobs[i].kind] += r.slow
 		j := jobs[i]
-		c.Case(j.o.String()+"\x00"+j.src, r.tree, "lang="+langName(j.o.lang), fmt.Sprintf("recover=%v", j.o.recover > 0), fmt.Sprintf("len<%d", bucket(len(j.src))))
+		c.Case(j.o.String()+"\x00"+j.src, r.tree, "lang="+langName(j.o.lang), "kind="+j.kind, fmt.Sprintf("recover=%v", j.o.recover > 0),
+			fmt.Sprintf("stopAt=%v", j.o.stopAt != ""), fmt.Sprintf("keep=%v", j.o.keep), fmt.Sprintf("len<%d", bucket(len(j.src))))
 		for _, f := range r.fails {
-			c.Fail(f.Witness, f.What)
+			// minimise panics (not hangs) before reporting
+			w, what := f.Witness, f.What
+			if !strings.Contains(what, "did not return") && len(j.src) > 8 {
+				parts := strings.Fields(w)
+				e := 0
+				for k, n := range c06Entries {
+					if n == parts[0] {
+						e = k
+					}
+				}
+				head := strings.SplitN(what, ":", 2)[0]
+				min := c06Minimize(j.src, func(s string) bool {
+					j2 := j
+					j2.src = s
+					m, _, to := runOne(j2, e, 10*time.Second, nil)
+					return !to && strings.HasPrefix(m, head)
+				})
+				if min != j.src {
+					j2 := j
+					j2.src = min
+					if m, _, to := runOne(j2, e, 10*time.Second, nil); !to && m != "" {
+						w, what = fmt.Sprintf("%s %s %s", c06Entries[e], j.o, hx(min)), m+fmt.Sprintf(" [minimised from a %d-byte input]", len(j.src))
+					}
+				}
+			}
+			c.Fail(w, what)
+		}
+		for _, o := range r.ops {
+			if c.lines < 60000 {
+				c.Op(o.op, o.impl)
+			}
 		}
 		if r.slow > slowest {
 			slowest = r.slow
+			c.Extra["slowest_case"] = fmt.Sprintf("kind=%s len=%d %s", j.kind, len(j.src), j.o)
 		}
 	}
 	c.Extra["slowest_case_ms"] = slowest.Milliseconds()
-	// linearity probe: time per byte must not grow with size
-	probes := []string{"echo foo bar \"$a\" 'b' $(c) ${d:-e}; ", "if a; then b; fi\n", "a | b && c || d &\n", "x=$((1+2*3)); [[ a == b ]]; f() { :; }\n"}
-	var sb bytes.Buffer
-	worst := 0.0
-	for _, unit := range probes {
-		per := []float64{}
-		for _, reps := range []int{2000, 8000} {
-			src := strings.Repeat(unit, reps)
-			var d time.Duration
-			var err error
-			var pn string
-			for k := 0; k < 3; k++ {
-				t0 := time.Now()
-				_, err, pn = parseIn(src, syntax.LangBash)
-				if dd := time.Since(t0); k == 0 || dd < d {
-					d = dd
-				}
+	for k, d := range slowKinds {
+		c.Extra["slowest-entry-sum-ms kind="+k] = d.Milliseconds()
+	}
+
+	// ---- tie on hand-built nodes of every type with list fields: all-empty and one-non-empty ----
+	if c.Shard == 0 {
+		for _, t := range allNodeStructs() {
+			n := reflect.New(t).Interface().(syntax.Node)
+			ty, lens, slots := c06ListLens(n)
+			if len(slots) == 0 || ty == "File" {
+				continue
 			}
-			if pn != "" || err != nil {
-				c.Fail("linear "+hx(unit), fmt.Sprintf("repeated valid unit failed to parse: %v %s", err, pn))
+			// all list fields empty: Pos/End may also fail on nil pointer fields, which the WF
+			// predicate does not speak about — only types whose methods do not touch pointer fields
+			switch ty {
+			case "Word", "CallExpr", "CaseItem", "LetClause", "BraceExp":
+				c.Op(strings.TrimSpace("wf "+ty+" "+strings.Join(lens, " ")), fmt.Sprint(c06PosEnd(n) == ""))
 			}
-			per = append(per, float64(d.Nanoseconds())/float64(len(src)))
-		}
-		ratio := per[1] / per[0]
-		fmt.Fprintf(&sb, "%.0f→%.0f ns/B (x%.2f); ", per[0], per[1], ratio)
-		if ratio > worst {
-			worst = ratio
-		}
-		if ratio > 6 && per[1] > 5000 {
-			c.Fail("linear "+hx(unit), fmt.Sprintf("time per byte grows with input size: %.0f → %.0f ns/byte", per[0], per[1]))
 		}
 	}
-	c.Extra["linearity"] = sb.String()
+
+	// ---- linearity probe: time per byte must not grow with size ----
+	if c.Shard == 0 {
+		units := []string{"echo foo bar \"$a\" 'b' $(c) ${d:-e}; ", "if a; then b; fi\n", "a | b && c || d &\n", "x=$((1+2*3)); [[ a == b ]]; f() { :; }\n",
+			"cat <<E\nbody $x\nE\n", "# comment line\n", "a=(1 2 3) b[1]=x\n", "case x in a|b) c ;; *) d ;; esac\n"}
+		single := []struct{ name, pre, unit, post string }{
+			{"one-long-word", "echo ", "a", "\n"}, {"one-long-dquote", "echo \"", "a $b ", "\"\n"}, {"one-long-pipeline", "", "a | ", "a\n"},
+			{"one-long-heredoc", "cat <<E\n", "line $x\n", "E\n"}, {"one-long-arith", "((", "1+", "1))\n"}, {"one-long-array", "a=(", "x ", ")\n"},
+		}
+		type probe struct{ name, small, big string }
+		var probes []probe
+		const smallSize, bigSize = 256 << 10, 1 << 20
+		for _, u := range units {
+			probes = append(probes, probe{"repeat " + strconv.Quote(u), strings.Repeat(u, smallSize/len(u)), strings.Repeat(u, bigSize/len(u))})
+		}
+		for _, s := range single {
+			probes = append(probes, probe{s.name, s.pre + strings.Repeat(s.unit, smallSize/len(s.unit)) + s.post, s.pre + strings.Repeat(s.unit, bigSize/len(s.unit)) + s.post})
+		}
+		if !thorough {
+			probes = append(probes[:3], probes[8:11]...)
+		}
+		measure := func(src string, reps int) (float64, string) {
+			var best time.Duration
+			for k := 0; k < reps; k++ {
+				t0 := time.Now()
+				_, err, pn := parseIn(src, syntax.LangBash)
+				d := time.Since(t0)
+				if pn != "" || err != nil {
+					return 0, fmt.Sprintf("%v %s", err, pn)
+				}
+				if k == 0 || d < best {
+					best = d
+				}
+			}
+			return float64(best.Nanoseconds()) / float64(len(src)), ""
+		}
+		var sb bytes.Buffer
+		for _, p := range probes {
+			a, e1 := measure(p.small, 3)
+			b, e2 := measure(p.big, 3)
+			if e1 != "" || e2 != "" {
+				c.Fail("linear "+p.name, "valid input failed to parse: "+e1+e2)
+				continue
+			}
+			ratio := b / a
+			// a suspicious ratio is measured again, alone, before it is believed
+			for k := 0; k < 3 && ratio > 3; k++ {
+				c.Hist["linearity-remeasured"]++
+				a, _ = measure(p.small, 5)
+				b, _ = measure(p.big, 5)
+				ratio = b / a
+			}
+			fmt.Fprintf(&sb, "%s: %.0f→%.0f ns/B at 256KiB→1MiB (x%.2f); ", p.name, a, b, ratio)
+			c.Hist["linearity-probes"]++
+			if ratio > 3 {
+				c.Fail("linear "+p.name, fmt.Sprintf("time per byte grows with input size: %.0f ns/byte at 256 KiB, %.0f ns/byte at 1 MiB (x%.2f, measured 4 times)", a, b, ratio))
+			}
+		}
+		c.Extra["linearity"] = sb.String()
+	}
+
+	// ---- deep-nesting probe results ----
+	for _, d := range <-deepCh {
+		c.Hist["deep-probe:"+d.status]++
+		c.Extra[fmt.Sprintf("deep %q x %d", d.unit, d.n)] = fmt.Sprintf("%s in %v %s", d.status, d.d.Round(time.Millisecond), d.detail)
+		if d.status == "stack-overflow" {
+			c.Fail("deep-nesting-class stack-overflow", fmt.Sprintf("Parse of %q repeated %d times (%d bytes) kills the process: %s — a Go stack overflow is a fatal error that recover() cannot intercept", d.unit, d.n, d.n*len(d.unit), d.detail))
+		}
+	}
 }
